@@ -49,7 +49,7 @@ and action_of_sexp (s : Sexp.t) : action =
   match s with
   | L [A "ret"; x] -> ARet (bts x)
   | L [A "panic"; v] -> APanic (value_of_sexp v)
-  | L [A "write"; x] -> AWrite (bts x)
+  | L [A "write"; x] | L [A "wstr"; x] -> AWrite (bts x)
   | L [A "ss"; x] -> ASafeString (bts x)
   | L [A "si"; u] -> ASafeInt (zat u)
   | L [A "su"; u] -> ASafeUint (zat u)
@@ -87,6 +87,7 @@ let user_id (v : value) : int =
     | _ -> -3 in
   match v with VUser (_, _, _, repr, _) -> idof repr | _ -> -3
 
+let miss_reasons : (string, int) Hashtbl.t = Hashtbl.create 8
 let unmodelled = ref 0
 let outfuel = ref 0
 let rawok_false = ref 0
@@ -135,12 +136,18 @@ let h_pcase args : fail list =
     let qout (o : bytes) =
       if !inputs_ok then q_redactable kind o else [] in
     (match r, obs with
-     | RMiss _, _ -> incr unmodelled;
-       (match obs with L (A "out" :: o :: _) -> qout (bts o) | _ -> [ { tag = "Q:C11"; msg = "panic escaped from " ^ kind } ])
+     | RMiss w, _ -> incr unmodelled; bump miss_reasons (string_of_int (int_of_nat w));
+       (* the model does not cover the case: only the black-box predicates apply; a panic is
+          accepted only where the harness found a panic raised while printing a panic payload
+          (or by the Sprintfn callback itself), which propagates as in fmt *)
+       (match obs with
+        | L (A "out" :: o :: _) -> qout (bts o)
+        | L [A "panic"; allowed] when bool_atom allowed -> []
+        | _ -> [ { tag = "Q:C11"; msg = "panic escaped from " ^ kind } ])
      | RFuel, _ -> incr outfuel; [ { tag = "K:fuel"; msg = "model out of fuel" } ]
-     | RPanic _, L [A "panic"] -> []    (* nested panic propagates on both sides *)
+     | RPanic _, L [A "panic"; _] -> []    (* nested panic propagates on both sides *)
      | RPanic _, _ -> [ { tag = "K:printer"; msg = "model panics, implementation does not" } ]
-     | ROk _, L [A "panic"] ->
+     | ROk _, L [A "panic"; _] ->
        [ { tag = "K:printer"; msg = "implementation panics, model does not" };
          { tag = "Q:C11"; msg = "panic escaped from " ^ kind } ]
      | ROk mo, L (A "out" :: o :: rest) ->
@@ -165,4 +172,5 @@ let () =
   Hashtbl.replace handlers "pcase" h_pcase;
   at_exit (fun () ->
       if !unmodelled + !outfuel + !rawok_false > 0 then
-        Printf.printf "PRINTERSTATS unmodelled=%d outfuel=%d rawok_false=%d\n" !unmodelled !outfuel !rawok_false)
+        (Printf.printf "PRINTERSTATS unmodelled=%d outfuel=%d rawok_false=%d" !unmodelled !outfuel !rawok_false;
+         Hashtbl.iter (fun kd v -> Printf.printf " miss[%s]=%d" kd v) miss_reasons; print_newline ()))
